@@ -306,7 +306,11 @@ impl Gen {
         if c < self.cfg.p_empty_name {
             String::new()
         } else if c < self.cfg.p_empty_name + self.cfg.p_odd_name {
-            match self.rng.below(6) {
+            match self.rng.below(8) {
+                // longer than any small inline buffer
+                6 => format!("a rather long system name, the kind std::any::type_name produces: crate::module::sub::System<{}>::with::more::path::segments", tag),
+                // nothing but whitespace (still a name: it is not the empty string)
+                7 => [" ", "  ", " \t", "\t"][tag % 4].to_string(),
                 // characters that `{:?}` would escape (the panic messages quote names with `"{}"`)
                 5 => format!("q\"{}\\t\t{}", tag, tag),
                 0 => format!("sys {}-x/{}", tag, tag),
@@ -459,7 +463,16 @@ impl Gen {
                 };
                 v.push(Op::Sys { tag, name: name.clone(), deps, r, w, t });
             } else {
-                let (r, w) = self.access();
+                let (mut r, mut w) = self.access();
+                let mut t = t;
+                // a twin of the system registered just before (same declared access, same hint)
+                if self.rng.chance(12) {
+                    if let Some(Op::Sys { r: pr, w: pw, t: pt, .. }) = v.iter().rev().find(|o| matches!(o, Op::Sys { .. })) {
+                        r = pr.clone();
+                        w = pw.clone();
+                        t = if *pt == 0 { 3 } else { *pt };
+                    }
+                }
                 if self.rng.chance(self.cfg.p_callback_panic) {
                     v.push(Op::Sys { tag, name: name.clone(), deps, r, w, t: 0 });
                     continue;
